@@ -141,6 +141,16 @@ Theorem C17_reader_writes_only_row_members : forall legacy tbl f k v, In (k, v) 
 Proof. exact reader_writes_only_row_members. Qed.
 Print Assumptions C17_reader_writes_only_row_members.
 
+(* 10. CORNER excluded by the hypothesis "types unique in stream 2" of 1, 4, 7: with a duplicated type the verdict of the
+   code depends on its cursor and is NOT the lookup-based specification.  The model follows the code (cursor); here the
+   field of stream 1 is compared with the SECOND occurrence in stream 2 (the one at the cursor), found equal, and no
+   difference is reported although the first occurrence differs.  Writer output never has duplicates (C05_table_ok). *)
+Example C17_duplicate_types_corner :
+  let a := mkfield 3 [1] in let a' := mkfield 3 [2] in let b := mkfield 5 [9] in
+  are_different_gen [b; a'] [a; b; a'] = false /\
+  existsb (rep1 table pid_gen vid_gen particle_size varconfig_size pms_gen vms_gen walltime_prefix [a; b; a']) [b; a'] = true.
+Proof. split; vm_compute; reflexivity. Qed.
+
 (* Non-vacuity of the hypotheses of 1, 2, 4: two one-particle streams differing in x. *)
 Example C17_hypotheses_inhabited :
   let f1 := mkfield pid_gen (le_enc 8 4607182418800017408 ++ repeat 0 120) in
